@@ -1161,6 +1161,15 @@ class Interp:
             # for x in self._helper(...):   ==   _it = self._helper(...);  for x in _it:
             tsc = self.top_self_call(n.iter)
             if tsc and not tsc[2]:
+                from .geninline import inline_generator_loop, is_plain_generator
+                if is_plain_generator(tsc[1]):
+                    stmts = getattr(n, '_geninline', None)
+                    if stmts is None:
+                        stmts = inline_generator_loop(n, tsc[1], tsc[0], getattr(tsc[0], '_param_offset', 1))
+                        n._geninline = stmts if stmts is not None else False
+                    if stmts:
+                        yield from self.block(stmts, st)
+                        return
                 nm = '_iter_%d' % n.lineno
                 n2 = getattr(n, '_desugar', None)
                 if n2 is None:
